@@ -377,11 +377,104 @@ def run_manual_order(R: Recorder, case: dict[str, Any]) -> None:
 MANUAL_ORDERS = ("eAeBxBxA", "eAeBxAxB", "eAxAeBxB")
 
 
+def run_spawn_while_aborting(R: Recorder, case: dict[str, Any]) -> None:
+    """scope P is being left because its body failed / a sibling task failed / its task was cancelled; a task of P, cancelled by that,
+    tries to start a follow-up job with ctx.spawn from its cancellation handler and does not wait for it. The job suspends `k` times
+    and then runs a scope X of its own. Either the spawn is refused (then there is no job) or the job is one of P's tasks: P is only
+    left - and only completes - after X was left."""
+    from haiway import ctx
+
+    log: list[tuple[str, str]] = []
+    notes: dict[str, Any] = {"spawned": None, "refused": None}
+
+    def cb(name: str) -> Any:
+        def done(metrics: Any) -> None:
+            log.append(("completion", name))
+        return done
+
+    async def job() -> None:
+        for _ in range(case["k"]):
+            await asyncio.sleep(0)
+        if case["x_kind"] == "async":
+            async with ctx.scope("X", completion=cb("X")):
+                log.append(("enter", "X"))
+                for _ in range(case["m"]):
+                    await asyncio.sleep(0)
+        else:
+            with ctx.scope("X", completion=cb("X")):
+                log.append(("enter", "X"))
+                for _ in range(case["m"]):
+                    await asyncio.sleep(0)
+        log.append(("exit", "X"))
+
+    async def worker() -> None:
+        try:
+            await asyncio.get_running_loop().create_future()
+        except asyncio.CancelledError:
+            try:
+                notes["spawned"] = ctx.spawn(job)
+            except RuntimeError as exc:
+                notes["refused"] = repr(exc)
+            raise
+
+    async def failing() -> None:
+        await asyncio.sleep(0)
+        raise RuntimeError("sibling failed")
+
+    async def owner() -> None:
+        try:
+            async with ctx.scope("P", completion=cb("P")):
+                ctx.spawn(worker)
+                await asyncio.sleep(0)
+                if case["abort"] == "body-raises":
+                    raise KeyError("body failed")
+                if case["abort"] == "sibling-fails":
+                    ctx.spawn(failing)
+                await asyncio.get_running_loop().create_future()
+        except BaseException:  # noqa: BLE001
+            pass
+        finally:
+            log.append(("exit", "P"))
+            notes["job_done_at_exit"] = None if notes["spawned"] is None else notes["spawned"].done()
+
+    async def main(loop: Any) -> None:
+        t = loop.create_task(owner())
+        if case["abort"] == "cancelled":
+            for _ in range(3):
+                await asyncio.sleep(0)
+            t.cancel()
+        await asyncio.gather(t, return_exceptions=True)
+        if notes["spawned"] is not None:
+            await asyncio.gather(notes["spawned"], return_exceptions=True)
+        for _ in range(8):
+            await asyncio.sleep(0)
+
+    status, value, loop = run_virtual(main, max_iterations=5000)
+    R.case(case, nontrivial=True)
+    R.count("spawns_attempted_while_the_scope_aborts")
+    w = {"kind": "spawn-while-aborting", "abort": case["abort"], "x_kind": case["x_kind"]}
+    if status != "ok":
+        R.monitor("eventually", False, where={**w, "kind": status}, detail=f"run ended {status}: {value!r}; log={log}", case=case)
+        return
+    R.count("spawn_refused_while_aborting" if notes["spawned"] is None else "spawn_accepted_while_aborting")
+    pos = {e: i for i, e in enumerate(log)}
+    n_p = sum(1 for e in log if e == ("completion", "P"))
+    R.monitor("once", n_p <= 1, where={**w, "kind": "completion-twice"}, detail=f"P: completion invoked {n_p} times; log={log}", case=case)
+    R.monitor("eventually", n_p >= 1, where={**w, "kind": "completion-never-fired", "callback": "sync", "node": "P"}, detail=f"P: everything was left but its completion never fired; log={log} notes={notes}", case=case)
+    if notes["spawned"] is not None and n_p:
+        # the job was accepted as a task of P (spawned from one of P's tasks while P's group was current): X runs under P
+        early = ("exit", "X") not in pos or pos[("exit", "X")] > pos[("completion", "P")]
+        R.monitor("after-subtree", not early, where={**w, "kind": "completion-before-subtree-left", "node": "P"},
+                  detail=f"ctx.spawn from a task of P (while P was aborting) returned a task, yet P completed before the scope X run by that task was left; log={log} notes={notes}", case=case)
+
+
 def run(R: Recorder, tier: str, seed: int, shard: int, nshards: int) -> None:
     if shard == 0:
         for order in MANUAL_ORDERS:
             for ka, kb in itertools.product(("async", "sync"), repeat=2):
                 run_manual_order(R, {"manual": True, "order": order, "kinds": {"A": ka, "B": kb}})
+        for abort, x_kind, k, m in itertools.product(("body-raises", "sibling-fails", "cancelled"), ("async", "sync"), (0, 1, 2, 3), (0, 2)):
+            run_spawn_while_aborting(R, {"spawn_while_aborting": True, "abort": abort, "x_kind": x_kind, "k": k, "m": m})
     cap, extra = CAP[tier]
     R.flags["exhaustive_core"] = f"all trees <= 3 nodes x kinds x placements, linearisations by DFS (cap {cap}, +{extra} random)"
     rngt = random.Random(f"C09/{seed}")
@@ -394,6 +487,9 @@ def run(R: Recorder, tier: str, seed: int, shard: int, nshards: int) -> None:
 def replay(R: Recorder, rec: dict[str, Any]) -> None:
     if rec.get("manual"):
         run_manual_order(R, rec)
+        return
+    if rec.get("spawn_while_aborting"):
+        run_spawn_while_aborting(R, rec)
         return
     ch = Chooser(rec["choices"], "first")
     out = run_once(rec["tree"], ch)
